@@ -348,7 +348,8 @@ def step (cl : Cl) (args : List String) (impl : String) : Cl × Driver.Out :=
     | some a, some t =>
       match getNode cl a with
       | some na =>
-        let relays := ((rl.splitOn ",").filterMap (fun x => x.toNat?.map nodeAddr)).eraseDups
+        -- RemoteList.unlockedSort de-duplicates the relay list and sorts it by address
+        let relays := sortBy id ((rl.splitOn ",").filterMap (fun x => x.toNat?.map nodeAddr)).eraseDups
         let (na', c', outs) := startRelays na cl.c (nodeAddr t) false relays
         let cl1 := { setNode cl a na' with c := c' }
         let (cl2, toks) := route cl1 a na.pending outs
